@@ -273,7 +273,7 @@ func (r *rig) doOpOwn(op Sx, own **quickfix.Message) {
 	if a, ok := op.(Atom); ok {
 		switch string(a) {
 		case "dropreset":
-			r.sess.VerifConcDropAndReset()
+			_ = r.sess.VerifConcResetSession() // the registry call ResetSession while not logged on, dropAndReset otherwise
 		case "flush":
 			r.sess.VerifConcSendAppMessages()
 		case "logonreset":
